@@ -21,6 +21,11 @@ def run(ctx) -> None:
     ctx.rule("C20.R4", "rendering performs no store or mutator call on the Hugr", floor=1)
     ctx.rule("C20.R5", "the configuration only reaches colour attributes and the qualified-name choice", floor=2)
     prog = ctx.program
+    ctx.rule("C20.R6", "the queries the renderer enumerates the HUGR with are complete: links() every link, children() the ordered children, port counts (shared with C04.R7)", floor=4)
+    from .c04 import r6_r7_tables
+    hugr_cls = prog.cls("hugr.hugr.base.Hugr")
+    with ctx.as_rule(C04_R7="C20.R6"):
+        r6_r7_tables(ctx, hugr_cls, hugr_cls.module.path, only={"links", "children", "num_in_ports", "num_out_ports"})
     m = prog.module(R)
     dr = m.classes.get("DotRenderer")
     if dr is None:
